@@ -36,6 +36,10 @@ func ParsePage(data []byte) []TupleEntry {
 	}
 
 	var entries []TupleEntry
+	// Storage of the tuples reported so far. PostgreSQL never lets two line pointers
+	// share tuple bytes; on a damaged page the first claim on the bytes wins, so one
+	// page never reports more tuple data than it holds.
+	var claimed []ItemID
 	for _, item := range parseItems(data, h) {
 		if item.Flags != 1 || item.Length <= 0 {
 			continue
@@ -43,13 +47,28 @@ func ParsePage(data []byte) []TupleEntry {
 		if item.Offset < int(h.Upper) || item.Offset+item.Length > PageSize {
 			continue
 		}
+		if overlapsAny(claimed, item) {
+			continue
+		}
 
 		tuple := ParseHeapTuple(data[item.Offset : item.Offset+item.Length])
 		if tuple != nil {
 			entries = append(entries, TupleEntry{Tuple: tuple})
+			claimed = append(claimed, item)
 		}
 	}
 	return entries
+}
+
+// overlapsAny reports whether the storage [Offset, Offset+Length) of item shares
+// a byte with the storage of one of the claimed line pointers.
+func overlapsAny(claimed []ItemID, item ItemID) bool {
+	for _, c := range claimed {
+		if item.Offset < c.Offset+c.Length && c.Offset < item.Offset+item.Length {
+			return true
+		}
+	}
+	return false
 }
 
 func parseHeader(data []byte) *PageHeader {
